@@ -230,7 +230,20 @@ def run_case(case):
                     reg['b'] = manager.Box(0)
                     for rd in range(max(3, case['ops'] // 30)):
                         n = rng.randrange(0, 5)
-                        r = call(0, 'b', 'make_own_list', [n], None, 'L')
+                        # a user-class value handed out with a bare managed(), twice per sequence (the second call finds the derived typeid registered)
+                        r = call(0, 'b', 'make_child_bare', [rd], None, 'CH')
+                        if r[0] != 'proxy':
+                            viol.append({'mech': 'proxy/managed-value-is-a-copy', 'msg': f'managed(Box) came back as {str(r)[:200]} instead of a live proxy'})
+                            return
+                        share('CH', list(agents))
+                        actor = rng.choice([0] + list(agents))
+                        call(actor, 'CH', 'set', [('set-through-proxy', rd)])
+                        obs['managed_mutations'] += 1
+                        seen = call(0, 'b', 'child_value', [])
+                        if seen != ('val', ('set-through-proxy', rd)):
+                            viol.append({'mech': 'proxy/managed-value-is-a-copy', 'msg': f'a change made through the proxy returned by managed(Box) (call #{rd + 1}) is not visible in the hosted value: server has {seen}'})
+                            return
+                        r = call(0, 'b', 'make_own_list' if rd % 2 else 'make_own_list_bare', [n], None, 'L')
                         if r[0] != 'proxy':
                             viol.append({'mech': 'proxy/managed-value-is-a-copy', 'msg': f'managed_list came back as {r} instead of a live proxy'})
                             return
